@@ -44,7 +44,7 @@ func GenSpellingGroup(r *rand.Rand, p Profile) *spellingGroup {
 		opts := g.optsOf(real, real.p.Command)
 		var cands []optInfo
 		for _, o := range opts {
-			if !isBoolCode(o.code) && !o.optional && o.short != 0 && o.long != "" && o.code != "c1" {
+			if !isBoolCode(o.code) && o.short != 0 && o.long != "" && o.code != "c1" {
 				// the names must resolve to this very option: unique among the parser's options and
 				// not shadowed by the built-in help option
 				n := 0
@@ -140,6 +140,10 @@ func GenSpellingGroup(r *rand.Rand, p Profile) *spellingGroup {
 		for _, label := range []string{"-xV", "-x=V", "-x V", "--name=V", "--name V", "-x=\"V\"", "--name=\"V\"", "--name \"V\""} {
 			f, ok := forms[label]
 			if !ok {
+				continue
+			}
+			// (the separate-token form is documented not to bind to an option whose argument is optional)
+			if o.optional && len(f) == 2 {
 				continue
 			}
 			cc := *c
